@@ -26,6 +26,13 @@ class MethodSignature(LeafExpr):
             )
         elif len(methodName) == 0:
             raise TealInputError("invalid input empty string to Method")
+        elif any(c in methodName for c in ('"', "\\", "\n", "\r")):
+            # the signature is emitted verbatim inside a quoted TEAL literal
+            raise TealInputError(
+                "invalid character in method signature {!r}: quotes, backslashes and line breaks are not allowed".format(
+                    methodName
+                )
+            )
         self.methodName = methodName
 
     def __teal__(self, options: "CompileOptions"):
